@@ -990,7 +990,7 @@ def exp2_or_eval(lhs, ctx):
     ts = vy_type(lhs)
 
     return {
-        NUMBER_TYPE: lambda: 2 ** lhs,
+        NUMBER_TYPE: lambda: vyxalify(sympy.Integer(2) ** lhs),
         str: lambda: vy_eval(lhs, ctx),
     }.get(ts, lambda: vectorise(exp2_or_eval, lhs, ctx=ctx))()
 
@@ -1028,7 +1028,9 @@ def exponent(lhs, rhs, ctx):
     """
     ts = vy_type(lhs, rhs)
     return {
-        (NUMBER_TYPE, NUMBER_TYPE): lambda: lhs ** rhs,
+        (NUMBER_TYPE, NUMBER_TYPE): lambda: vyxalify(
+            sympy.sympify(lhs) ** rhs
+        ),
         (NUMBER_TYPE, str): lambda: rhs
         + ((rhs[0] or " ") * (int(lhs) - len(rhs))),
         (str, NUMBER_TYPE): lambda: lhs
